@@ -214,7 +214,15 @@ def unpriv(mon, spec):
             protected = rng.random() < 0.6
             is_store = name.startswith('STR')
             if protected:
-                target = rng.choice([0x1000, 0x1004, 0x1800, 0x1FF0]) if True else 0
+                # aligned, unaligned (byte-wise path of MemU) and straddling the boundary of the privileged-only region;
+                # for stores also the privileged-RW / user-RO region at 0x11800
+                target = rng.choice([0x1000, 0x1004, 0x1800, 0x1FF0, 0x1001, 0x1002, 0x1003, 0x17FE, 0x1FF1, 0x0FFE, 0x0FFF, 0x0FFD])
+                if is_store and rng.random() < 0.25:
+                    target = rng.choice([0x11800, 0x11801, 0x11802, 0x11C03, 0x117FE, 0x117FF])
+                if name[:5] in ('LDRBT', 'STRBT', 'LDRSB') and target in (0x0FFE, 0x0FFF, 0x0FFD, 0x117FE, 0x117FF):
+                    target = 0x1003
+                if name[:5] in ('LDRHT', 'STRHT', 'LDRSH') and target in (0x0FFE, 0x0FFD, 0x117FE):
+                    target += 1 if target != 0x0FFD else 2
             else:
                 target = rng.choice([0x100, 0x4000, 0x5000]) if is_store or rng.random() < 0.5 else 0x2004
             imm = rng.choice([0, 0, 4, 8]) & immmask
@@ -234,6 +242,16 @@ def unpriv(mon, spec):
                 regs[rn] = (target - imm) & 0xFFFFFFFF
             desc = mon.scen.prepare(ctx, rng, kind, w, mode=mode, itpos='out', ns=ns, regs=regs)
             desc['insn'] = name
+            if ctx.cfg['arch_version'] == 6:
+                ctx.cpu.registers.sctlr.u = 1 if rng.random() < 0.7 else 0
+            ctx.cpu.registers.sctlr.a = 1 if rng.random() < 0.1 else 0
+            desc['sctlr_a_u'] = (ctx.cpu.registers.sctlr.a, ctx.cpu.registers.sctlr.u)
+            if ctx.cfg['arch_version'] < 7 and not ctx.cpu.registers.sctlr.a and not ctx.cpu.registers.sctlr.u:
+                # legacy alignment model: the access is made at the aligned-down address
+                size = 1 if name[3:5] in ('BT', 'SB') else (2 if name[3:5] in ('HT', 'SH') else 4)
+                eff = target & ~(size - 1)
+                if protected and not (0x1000 <= eff < 0x2000 or 0x11800 <= eff < 0x12000):
+                    protected = False
             pre = observe.snapshot(ctx.cpu)
             del log[:]
             k, sig = mon.scen.step(ctx.cpu)
@@ -250,8 +268,10 @@ def unpriv(mon, spec):
                 mon.bump('unpriv_on_protected')
                 if (post['cpsr'] & 0x1F) != 0b10111:
                     mon.report('C19|unpriv-variant-not-aborted-on-privileged-only-region|%s' % name, desc, desc)
-                elif pre['mem0'] != post['mem0']:
+                elif pre['mem0'][0x1000:0x3000] != post['mem0'][0x1000:0x3000] or pre['mem1'][0x1800:0x2000] != post['mem1'][0x1800:0x2000]:
                     mon.report('C19|unpriv-variant-stored-despite-abort|%s' % name, desc, desc)
+                if target & 3:
+                    mon.bump('unpriv_unaligned_on_protected')
             else:
                 mon.bump('unpriv_on_open')
     finally:
@@ -344,6 +364,8 @@ def finish(agg, tier, seed):
         inc.append('Thumb-16 space not covered completely')
     if c.get('path_enumeration_incomplete', 0):
         inc.append('decoder path enumeration incomplete')
+    if c.get('unpriv_unaligned_on_protected', 0) < 100:
+        inc.append('too few unaligned unprivileged-variant accesses on the protected region (%d)' % c.get('unpriv_unaligned_on_protected', 0))
     if c.get('unpriv_on_protected', 0) < 200:
         inc.append('too few unprivileged-variant accesses on the protected region (%d)' % c.get('unpriv_on_protected', 0))
     if sum(v for k, v in c.items() if k.startswith('outcome_exc')) < 500:
